@@ -607,7 +607,7 @@ def gen_resolver():
                 if envvar not in (None, m.group(2)):
                     raise TranslateError(f"{what}: two different environment variables")
                 envvar = m.group(2)
-                lets.append("(match env with Some dirs => lp ++ dirs | None => lp end)")
+                lets.append("(match env with Some dirs => (lp ++ dirs)%list | None => lp end)")
                 s = s[m.end():]
                 continue
             m = re.fullmatch(rf"FileImportResolver :: new \( {var} \)", s)
